@@ -21,11 +21,6 @@ theorem treePOK_attachment (l : Nat) (a : CTree) : treePOK (.attachment l a) = t
 theorem treePOK_attBlock (l : Nat) (a : CTree) : treePOK (.attBlock l a) = treePOK a := by simp [treePOK, nodes]
 theorem treePOK_block (l : Nat) (a : CTree) : treePOK (.block l a) = treePOK a := by simp [treePOK, nodes]
 
-def fieldToks : DateField → List PTok
-  | .header => [] | .access => [.kw .access] | .modified => [.kw .modified] | .created => [.kw .created]
-def cmpTok : DateCmp → PTok
-  | .lt => .lt | .gt => .gt
-
 theorem parseDate_rt (cx : PCtx) (hnl : cx.nl = countNl tl) (f : DateField) (c : DateCmp) (age : Nat) (hage : age < 2 ^ 32) :
     RT cx tl (parseDate cx) (.leaf (.date 1 f c age)) (fieldToks f ++ [cmpTok c, .int age, .seconds]) := by
   intro s ts hs
